@@ -414,3 +414,46 @@ pub fn tiny_diagram(ns: usize, mut index: u64) -> Option<DDesc> {
     }
     Some(DDesc { verts, edges, inputs, outputs, scalar: DScalar { coeffs: [1, 0, 0, 0], pow: 0 } })
 }
+
+/// Long sparse diagrams: 40-120 spiders arranged as a random tree in which every new spider
+/// hangs off one of the last three, plus a few short-range extra edges, so that the
+/// tree-width stays tiny (the evaluator remains fast) while the vertex count is far above
+/// what the dense families reach: vector-backend packing thresholds, ids above 64, long
+/// fusion / identity-removal chains.
+pub fn gen_long_sparse(r: &mut Rng, min_sp: usize, max_sp: usize, pool: PhasePool, graph_like: bool, var_prob: f64) -> DDesc {
+    let ns = min_sp + r.below(max_sp - min_sp + 1);
+    let mut verts = vec![];
+    let mut edges: Vec<(usize, usize, EK)> = vec![];
+    let ek = |r: &mut Rng| if graph_like || r.chance(0.5) { EK::H } else { EK::N };
+    for i in 0..ns {
+        let kind = if graph_like || r.chance(0.6) { VK::Z } else { VK::X };
+        // many phase-0 spiders of degree 2 (identity removal chains) and Paulis (pivots)
+        let ph = if r.chance(0.35) { (0, 1) } else { gen_phase(r, pool) };
+        verts.push(DV { kind, ph, vars: gen_vars(r, var_prob) });
+        if i > 0 {
+            let back = 1 + r.below(3.min(i));
+            let k = ek(r);
+            edges.push((i - back, i, k));
+            if i >= 3 && r.chance(0.15) {
+                let b2 = 2 + r.below(2);
+                if b2 != back && i >= b2 {
+                    let k = ek(r);
+                    add_edge(&mut edges, i - b2, i, k);
+                }
+            }
+        }
+    }
+    let nb = r.below(4);
+    let mut bnds = vec![];
+    for _ in 0..nb {
+        let b = verts.len();
+        verts.push(DV { kind: VK::B, ph: (0, 1), vars: vec![] });
+        let s = r.below(ns);
+        edges.push((s, b, if r.chance(0.3) { EK::H } else { EK::N }));
+        bnds.push(b);
+    }
+    let cut = if bnds.is_empty() { 0 } else { r.below(bnds.len() + 1) };
+    let inputs = bnds[..cut].to_vec();
+    let outputs = bnds[cut..].to_vec();
+    DDesc { verts, edges, inputs, outputs, scalar: gen_scalar(r) }
+}
